@@ -403,8 +403,11 @@ pub enum WriteFault {
     Short(usize),
     /// never fails hard; reports `Interrupted` on the listed call indices
     Interrupt(usize),
-    /// all writes succeed; the first `n` calls of `flush` report `Interrupted`, later ones succeed
+    /// a buffering writer: writes are held back until a `flush` succeeds; the first `n` calls of `flush` report
+    /// `Interrupted`, later ones succeed (so `out` is complete only if the encoder kept flushing until it worked)
     FlushInterrupt(usize),
+    /// the same buffering writer, but after `n` interrupted calls `flush` fails hard with this kind
+    FlushInterruptThenErr(usize, ErrorKind),
 }
 
 pub struct FaultWriter {
@@ -413,6 +416,7 @@ pub struct FaultWriter {
     pub fail_at: usize,
     pub calls: usize,
     pub faults_reported: usize,
+    pub pending: Vec<u8>,
 }
 
 impl FaultWriter {
@@ -423,6 +427,7 @@ impl FaultWriter {
             fail_at,
             calls: 0,
             faults_reported: 0,
+            pending: Vec::new(),
         }
     }
 }
@@ -471,8 +476,8 @@ impl Write for FaultWriter {
                 self.out.extend_from_slice(&buf[..n]);
                 Ok(n)
             }
-            WriteFault::FlushInterrupt(_) => {
-                self.out.extend_from_slice(buf);
+            WriteFault::FlushInterrupt(_) | WriteFault::FlushInterruptThenErr(..) => {
+                self.pending.extend_from_slice(buf);
                 Ok(buf.len())
             }
             WriteFault::Interrupt(at) => {
@@ -491,11 +496,17 @@ impl Write for FaultWriter {
             self.faults_reported += 1;
             return Err(io::Error::new(kind, "injected flush fault"));
         }
-        if let WriteFault::FlushInterrupt(n) = self.fault {
+        if let WriteFault::FlushInterrupt(n) | WriteFault::FlushInterruptThenErr(n, _) = self.fault {
             if self.faults_reported < n {
                 self.faults_reported += 1;
                 return Err(io::Error::new(ErrorKind::Interrupted, "injected interrupted flush"));
             }
+            if let WriteFault::FlushInterruptThenErr(_, kind) = self.fault {
+                self.faults_reported += 1;
+                return Err(io::Error::new(kind, "injected flush fault after interruptions"));
+            }
+            let held = std::mem::take(&mut self.pending);
+            self.out.extend_from_slice(&held);
         }
         Ok(())
     }
